@@ -5,7 +5,7 @@ import re, subprocess, sys, json, os, concurrent.futures as cf
 ROOT='/verif'
 ENV=dict(os.environ, GOFLAGS='-mod=mod', GOPROXY='off', GOSUMDB='off', GOTOOLCHAIN='local'); ENV.pop('GOWORK',None)
 src=open(ROOT+'/checker/mutants.go').read()
-ms=re.findall(r'addMutant\(Mutant\{"([^"]+)", "([^"]+)"', src)
+ms=re.findall(r'addMutant2?\(Mutant\{"([^"]+)", "([^"]+)"', src)
 exp={}
 args=sys.argv[1:]; j=4
 if args[:1]==['-j']: j=int(args[1]); args=args[2:]
